@@ -26,6 +26,9 @@ def run(ctx):
 
 
 def run_cfg(ctx, p, cfg):
+    if "config_parsing" in p.meta.get("features", []) and "size_trigger" in p.meta.get("features", []):
+        # "all limits (including 0)": the limit a document states is the limit the trigger compares with
+        common.rule_config_reaches_component(ctx, p, cfg, "Z10", "SizeTriggerDeserializer", "SizeTrigger::new", stored={"limit": 1})
     with ctx.rule("Z1", "comparator", cfg) as r:
         f = p.fn(SIZE_TRIGGER)
         rets = q.ret_assignments(f)
